@@ -268,6 +268,21 @@ extern int total_queries;
 #define FAILURE_TERMINUS return _error_code
 
 /*
+ * Restores the uthash hash with head pointer 'head' to a consistent state that does not contain element 'add', after
+ * a HASH_ADD_KEYPTR() of that element invoked uthash_fatal() for lack of memory.  That happens in exactly two
+ * situations: either the hash was empty and allocating its table or initial buckets failed (so 'add' is a head without
+ * a usable table), or the element was completely added and expanding the bucket array then failed.
+ */
+#define CIF_HASH_ADD_UNDO(hh, head, add) do { \
+  if (((head) == (add)) && (((head)->hh.tbl == NULL) || ((head)->hh.tbl->buckets == NULL))) { \
+    if ((head)->hh.tbl != NULL) uthash_free((head)->hh.tbl, sizeof(UT_hash_table)); \
+    (head) = NULL; \
+  } else { \
+    HASH_DELETE(hh, head, add); \
+  } \
+} while (0)
+
+/*
  * An alias for FAILURE_TERMINUS, for clarity where a success result is known
  * to have been achieved, but a variable result code can be returned.
  */
